@@ -192,7 +192,20 @@ def segsAlong : List (R × Bool) → List R → List (Option Res) → List (List
 
 def addTag (tags : List String) (t : String) : List String := if tags.contains t then tags else tags ++ [t]
 
+/-- mode `quotes`: `LAST_VALUE(tag) OP <literal>` in four spellings (single quotes, double quotes, parenthesised, with a
+second conjunct) over one row whose tag is a string: each spelling fires iff the comparison of the two texts says so -/
+def runQuotes (c : Case) : CaseOut :=
+  let exp := c.ops.map fun (op, _) => match op with
+    | ["q", lit, o, v] =>
+      let eq := ("s:" ++ lit) == v
+      let b := if o == "ne" then !eq else eq
+      [("fires" :: List.replicate 4 (boolTok b))]
+    | _ => [["bad-op"]]
+  let ok := (c.ops.zip exp).all fun ((_, io), e) => io == e
+  { obs := exp, spec := if ok then "ok" else "fail:quoted-literal-spellings-of-one-predicate-fire-differently", tags := ["mode-quotes"] }
+
 def run (c : Case) : CaseOut := Id.run do
+  if c.cfg.any (fun l => l == ["mode", "quotes"]) then return runQuotes c
   let cfg := parseCfg c.cfg
   let bad : CaseOut := { obs := c.ops.map fun _ => [["bad-case"]], spec := "fail:bad-case" }
   if cfg.bad then return bad
